@@ -218,6 +218,9 @@ impl HitObjectsState {
             Ok(())
         };
 
+        // A previous line might have failed after some segments were stored
+        self.curve_points.clear();
+
         self.point_split(point_str.split('|'), f)
     }
 
